@@ -70,6 +70,9 @@ type kenv struct {
 	coll  crypto.Address
 	keys  map[string]secp256k1.PrivKeySecp256k1 // every address of a behaviour is a keyed account, the fee collector included
 	ante  sdk.AnteHandler
+	handler interface {
+		Process(ctx sdk.Context, msg std.Msg) sdk.Result
+	}
 	genKey string           // JSON of the genesis step the layer below was built from
 	gen    store.MultiStore // state after genesis (verified once), shared by the behaviours of one run
 }
@@ -99,6 +102,7 @@ func newKenv(scale int64) *kenv {
 	ms.Commit()
 	e := &kenv{ms: ms, key: mainKey, acck: acck, bankk: bankk, prmk: prmk, base: ctx, scale: scale}
 	e.coll = acck.FeeCollectorAddress(ctx)
+	e.handler = bank.NewHandler(bankk)
 	e.ante = auth.NewAnteHandler(acck, bankk, auth.DefaultSigVerificationGasConsumer, auth.AnteOptions{VerifyGenesisSignatures: true})
 	return e
 }
@@ -194,6 +198,8 @@ func classify(err error) string {
 		return "restricted"
 	case std.InvalidCoinsError:
 		return "invalid"
+	case bank.InputOutputMismatchError:
+		return "mismatch"
 	}
 	if strings.Contains(err.Error(), "out of range") {
 		return "range" // nextSupply: plain error by design (supply.go)
@@ -424,9 +430,23 @@ func (e *kenv) step(s mbt.Step) string {
 	case "AnteTx":
 		return e.run(true, func(ctx sdk.Context) error { return e.anteTx(ctx, mbt.Strs(s["signers"]), int64(s.Int("fee"))) })
 	case "InputOutputCoins":
+		// the path of a MsgMultiSend: msg.ValidateBasic() (runTx), then the bank handler's Process
 		ins, _ := inouts(e, s["ins"])
 		_, outs := inouts(e, s["outs"])
-		return e.run(true, func(ctx sdk.Context) error { return e.bankk.InputOutputCoins(ctx, ins, outs) })
+		msg := bank.MsgMultiSend{Inputs: ins, Outputs: outs}
+		var verr error
+		if p, _, _ := mbt.Guard(func() { verr = msg.ValidateBasic() }); p {
+			return "mismatch" // rejected before the keeper (today a panic when both totals have as many, but different, denominations)
+		}
+		if verr != nil {
+			return classify(verr)
+		}
+		return e.run(true, func(ctx sdk.Context) error {
+			if res := e.handler.Process(ctx, msg); !res.IsOK() {
+				return res.Error
+			}
+			return nil
+		})
 	case "MintCoins":
 		return e.run(false, func(ctx sdk.Context) error { return e.bankk.MintCoins(ctx, A("to"), e.coins(s["amt"])) })
 	case "BurnCoins":
